@@ -650,6 +650,10 @@ fn forwarder_answer(q: &WQ) -> (WMsg, &'static str) {
     } else if first.starts_with("cut") {
         m.answers = vec![a(&q.name.lower())];
         "cut"
+    } else if first.starts_with("tcpcut") {
+        // TC over UDP; over TCP the length prefix and then only the first 0..3 octets of the reply
+        m.answers = vec![a(&q.name.lower())];
+        "tcpcut"
     } else if first.starts_with("tc") {
         m.answers = vec![a(&q.name.lower())];
         "tc"
@@ -680,7 +684,7 @@ fn start_forwarder(sent: Arc<Mutex<Vec<WRR>>>) -> Result<u16, String> {
             m.id = req.id;
             let bytes = match kind {
                 "silent" => continue,
-                "tc" => {
+                "tc" | "tcpcut" => {
                     let mut t = m.clone();
                     t.tc = true;
                     t.answers.clear();
@@ -731,8 +735,17 @@ fn start_forwarder(sent: Arc<Mutex<Vec<WRR>>>) -> Result<u16, String> {
                     return;
                 }
                 m.id = req.id;
-                sent_t.lock().unwrap().extend(m.answers.iter().cloned());
                 let bytes = rwire::encode_plain(&m);
+                if kind == "tcpcut" {
+                    // the number in the first label decides how much arrives: 0..3 octets
+                    let first = q.name.0.first().map(|l| String::from_utf8_lossy(l).to_string()).unwrap_or_default();
+                    let n = first.bytes().filter(|b| b.is_ascii_digit()).fold(0usize, |a, b| a * 10 + usize::from(b - b'0')) % 4;
+                    let _ = s.write_all(&(bytes.len() as u16).to_be_bytes());
+                    let _ = s.write_all(&bytes[..n]);
+                    let _ = s.shutdown(std::net::Shutdown::Both);
+                    return;
+                }
+                sent_t.lock().unwrap().extend(m.answers.iter().cloned());
                 let _ = s.write_all(&(bytes.len() as u16).to_be_bytes());
                 let _ = s.write_all(&bytes);
             });
@@ -784,7 +797,7 @@ impl Prop for Forwarding {
         FwdBatch {
             queries: (0..n)
                 .map(|_| {
-                    let kind = g.pick(&["ok", "ok", "cname", "nx", "cut", "cut", "tc", "garbage", "local"]).to_string();
+                    let kind = g.pick(&["ok", "ok", "cname", "nx", "cut", "cut", "tc", "tcpcut", "garbage", "local"]).to_string();
                     // a fresh number most of the time: a name that is not in the cache yet
                     (kind, g.u16(), g.chance(1, 4), !g.chance(1, 6))
                 })
@@ -823,7 +836,7 @@ impl Prop for Forwarding {
         if out.failure.is_some() {
             return out;
         }
-        out.nontrivial = b.queries.iter().any(|q| q.0 == "cut" || q.0 == "tc" || q.0 == "garbage") && b.queries.len() >= 2;
+        out.nontrivial = b.queries.iter().any(|q| q.0 == "cut" || q.0 == "tc" || q.0 == "tcpcut" || q.0 == "garbage") && b.queries.len() >= 2;
         // content: ask again one by one (answers come from the cache now or are fetched again)
         let zone_model_names: Vec<N> = vec![N::parse("www.test.")];
         for (q, kind, rd) in &questions {
@@ -859,7 +872,7 @@ pub fn def() -> PropertyDef {
     PropertyDef {
         id: "C09",
         level: "exploration",
-        rule: "authoritative-only: one running `resolved --authoritative-only` (shipped binary, guard off) with fixed zone and hosts files (authoritative zone with aliases, alias loop, wildcard records and a wildcard alias asked one and two labels below, empty non-terminals, delegation, RRsets of 1 KB, 12 KB and 75 KB; a non-authoritative zone; hosts entries). A case is a batch of 1..16 messages interleaved over one UDP socket and separate TCP connections (whole, dribbled in pieces, announced longer than sent then half-closed, with trailing junk): well-formed queries with arbitrary header bits, 0..3 questions, known/special/unknown types and classes; single-byte mutations and truncations of them; the C03 adversarial constructions (incl. the 8180-hop pointer chains over TCP); runts of 0..11 octets. Every message has its own ID; a sentinel query closes the batch. Oracle per message, with the reference decoder as the only reader of replies: no reply iff QR=1 or fewer than 2 octets (unparseable input with the QR bit set: either); otherwise exactly one reply, same ID, QR=1; FORMERR iff the reference decoder rejects; NOTIMP iff opcode != 0; REFUSED iff more than one question or an unknown type/class; opcode, RD and questions echoed; RA clear; UDP <= 512 octets and TC iff the full encoding (learnt over TCP) is longer, the cut reply being its prefix; TCP length prefix = octets that follow; answer, authority, AA and RCODE equal those of dns_resolver::resolve run in-process on the same files through the documented mapping (SERVFAIL for an error or empty result); answer records only at the question name or on its alias chain; the server process is alive and answers the sentinel after every batch; no stray replies. Also enumerated: every configured name x 7 types on both transports, and every adversarial construction over TCP. forwarding: a second server forwarding to a scripted loopback forwarder (real sockets, so the real UDP receive path): replies cut short inside a record, TC, garbage, CNAME, NXDOMAIN, (thorough) silence; same framing rules with RA set; every answer record must have been supplied by the forwarder or a zone file and lie on the alias chain; with RD set the forwarder's answer must come back. Non-trivial = a batch with both malformed and well-formed messages over both transports / a forwarding batch with a faulty datagram. Distinct by hash of the batch.",
+        rule: "authoritative-only: one running `resolved --authoritative-only` (shipped binary, guard off) with fixed zone and hosts files (authoritative zone with aliases, alias loop, wildcard records and a wildcard alias asked one and two labels below, empty non-terminals, delegation, RRsets of 1 KB, 12 KB and 75 KB; a non-authoritative zone; hosts entries). A case is a batch of 1..16 messages interleaved over one UDP socket and separate TCP connections (whole, dribbled in pieces, announced longer than sent then half-closed, with trailing junk): well-formed queries with arbitrary header bits, 0..3 questions, known/special/unknown types and classes; single-byte mutations and truncations of them; the C03 adversarial constructions (incl. the 8180-hop pointer chains over TCP); runts of 0..11 octets. Every message has its own ID; a sentinel query closes the batch. Oracle per message, with the reference decoder as the only reader of replies: no reply iff QR=1 or fewer than 2 octets (unparseable input with the QR bit set: either); otherwise exactly one reply, same ID, QR=1; FORMERR iff the reference decoder rejects; NOTIMP iff opcode != 0; REFUSED iff more than one question or an unknown type/class; opcode, RD and questions echoed; RA clear; UDP <= 512 octets and TC iff the full encoding (learnt over TCP) is longer, the cut reply being its prefix; TCP length prefix = octets that follow; answer, authority, AA and RCODE equal those of dns_resolver::resolve run in-process on the same files through the documented mapping (SERVFAIL for an error or empty result); answer records only at the question name or on its alias chain; the server process is alive and answers the sentinel after every batch; no stray replies. Also enumerated: every configured name x 7 types on both transports, and every adversarial construction over TCP. forwarding: a second server forwarding to a scripted loopback forwarder (real sockets, so the real UDP receive path): replies cut short inside a record, TC, TC followed by a TCP reply of which only the length prefix and 0..3 octets arrive, garbage, CNAME, NXDOMAIN, (thorough) silence; same framing rules with RA set; every answer record must have been supplied by the forwarder or a zone file and lie on the alias chain; with RD set the forwarder's answer must come back. Non-trivial = a batch with both malformed and well-formed messages over both transports / a forwarding batch with a faulty datagram. Distinct by hash of the batch.",
         assumptions: vec![
             "replies are collected until the sentinel's reply plus a 60 ms grace period; a missing sentinel reply within 20 s is reported as server-unresponsive",
             "unparseable input whose QR bit is set may be answered with FORMERR or not at all",
